@@ -258,6 +258,10 @@ def run_cases(cases, procs=None, chunk=10):
     with mp.get_context('fork').Pool(procs) as pool:
         out = [r for res in pool.imap_unordered(_chunk, chunks) for r in res]
     out.sort(key=lambda r: r['id'])
+    by_id = {c['id']: c for c in cases}
+    for i, r in enumerate(out):               # a time-out under machine load is retried once, alone, before it counts
+        if r['status'] == 'timeout':
+            out[i] = eval_case(by_id[r['id']])
     return out
 
 
